@@ -1,4 +1,5 @@
 import MidoProofs.Props.C15
+import MidoProofs.Props.C15b
 #print axioms Mido.hstep_shape
 #print axioms Mido.C15_frame
 #print axioms Mido.C15_copy_eq
@@ -9,3 +10,4 @@ import MidoProofs.Props.C15
 #print axioms Mido.C15_none
 #print axioms Mido.C15_hash_eq
 #print axioms Mido.C15_hash_total
+#print axioms Mido.C15_copy_overrides
